@@ -148,6 +148,29 @@ def direct_diffuse(ctx, rng, ncfg, nev):
                     ctx.violation("inputs-modified", "Diffuse mcintegral modified an input array", wit)
             if not mc <= BSHR * geo * (1 + 1e-12) + 1e-300:
                 ctx.violation("bound", f"Diffuse integral {mc!r} exceeds 0.826 x geometric integral {geo!r}", wit)
+        # ---- exactly one surviving trajectory (alone, and among several thrown)
+        kept_ = np.asarray(g.event_mask, bool)
+        ki, di = np.flatnonzero(kept_), np.flatnonzero(~kept_)
+        for sel in ([int(ki[0])], ([int(x) for x in di[:5]] + [int(ki[-1])]) if di.size else None):
+            if sel is None:
+                continue
+            g1 = RegionGeom(cfg)
+            g1.throw(u[:, sel].copy())
+            b1, t1, l1 = np.array(g1.beta_rad()), np.array(g1.thetas()), np.array(g1.pathLens())
+            if b1.size != 1:
+                continue
+            tr1, c1, p1 = np.array([2.0 * thr]), np.cos(1.5 * t1), np.array([0.5])  # inside its effective cone
+            try:
+                mc, geo, npass, _ = g1.mcintegral(tr1, c1, p1, thr, 1.0, 1.0)
+            except Exception as e:
+                ctx.exception("raises", f"Diffuse mcintegral raised with one surviving trajectory of {len(sel)} thrown", e, wit)
+                continue
+            rmc, rgeo, rn, tol = diffuse_oracle(cfg, len(sel), b1, t1, l1, tr1, c1, p1, thr, 1.0, 1.0)
+            if rn != 1:
+                continue
+            ctx.count("single-survivor")
+            if not (close(mc, rmc, tol) and close(geo, rgeo, tol) and int(npass) == rn):
+                ctx.violation("diffuse-estimator", f"Diffuse altitude {alt} km, one surviving trajectory of {len(sel)} thrown: mcintegral returned (integral {mc!r}, geo {geo!r}, passing {npass}); independent evaluation gives ({rmc!r}, {rgeo!r}, {rn})", dict(wit, thrown=len(sel), survivors=1))
         ctx.distinct.add_rows(np.full(nk, alt), beta, theta, l, trig, cosch, pexit)
         if ci == 0:
             ctx.sample({"mode": "Diffuse", "config": wit, "thrown": N, "kept": nk, "threshold": thr, "first_event": {"beta": float(beta[0]), "theta": float(theta[0]), "path_len": float(l[0]), "trigger": float(trig[0]), "cosChEff": float(cosch[0]), "pexit": float(pexit[0])}})
@@ -231,6 +254,9 @@ def direct_target(ctx, rng, ncfg, nev):
         mask = np.asarray(g.too_source.sun_moon_cut(g.val_times()), bool)
         ctx.obs["target_dark_instants_seen"] = ctx.obs.get("target_dark_instants_seen", 0) + int(mask.sum())
         ctx.obs["target_bright_instants_seen"] = ctx.obs.get("target_bright_instants_seen", 0) + int((~mask).sum())
+        # the two channels are evaluated one after the other on the *same* arrays, as a full run does;
+        # the oracle reads pristine copies
+        trig0, cosch0, pexit0, lenDec0 = trig.copy(), cosch.copy(), pexit.copy(), lenDec.copy()
         for method in ("Optical", "Radio"):
             stored = {}
 
@@ -245,8 +271,13 @@ def direct_target(ctx, rng, ncfg, nev):
                 ctx.exception("raises", f"Target mcintegral [{method}] raised on valid arrays", e, wit)
                 continue
             use_mask = mask if (method == "Optical" and cfg.detector.sun_moon.sun_moon_cuts) else None
-            rmc, rgeo, rn, tol, percol = target_oracle(N, L, lenDec, trig, cc, pexit, thr, 1.0, 1.0, use_mask)
+            cc0 = cosch0 if method == "Optical" else cc
+            rmc, rgeo, rn, tol, percol = target_oracle(N, L, lenDec0, trig0, cc0, pexit0, thr, 1.0, 1.0, use_mask)
             ctx.count("direct-target", nk)
+            for nm_, a_, a0_ in (("triggers", trig, trig0), ("costhetaChEff", cosch, cosch0), ("tauexitprob", pexit, pexit0), ("lenDec", lenDec, lenDec0)):
+                if a_.tobytes() != a0_.tobytes():
+                    ctx.violation("inputs-modified", f"Target mcintegral [{method}] modified its {nm_} array ({int((a_ != a0_).sum())} of {nk} entries; the next channel is evaluated on the same array)", dict(wit, method=method, argument=nm_))
+                    a_[...] = a0_
             if not (close(mc, rmc, tol) and close(geo, rgeo, tol) and int(npass) == rn):
                 ctx.violation("target-estimator", f"Target [{method}] {nk} of {N} instants kept, sun_moon_cuts={cfg.detector.sun_moon.sun_moon_cuts}: mcintegral returned (integral {mc!r}, geo {geo!r}, passing {npass}); independent evaluation gives ({rmc!r}, {rgeo!r}, {rn})", dict(wit, method=method, threshold=thr))
             col = stored.get("tmcintopt" if method == "Optical" else "tmcintrad")
@@ -255,6 +286,32 @@ def direct_target(ctx, rng, ncfg, nev):
                 ctx.violation("target-column", f"Target [{method}]: the stored per-event column does not equal the per-event contributions ({'missing' if col is None else 'values differ'})", dict(wit, method=method))
             if not mc <= BSHR * geo * (1 + 1e-12) + 1e-300:
                 ctx.violation("bound", f"Target [{method}] integral {mc!r} exceeds 0.826 x geometric integral {geo!r}", wit)
+        # ---- exactly one surviving instant (one instant thrown, and one kept among a few thrown)
+        hm_ = np.asarray(g.horizon_mask, bool)
+        kept_ = np.zeros(N, bool)
+        kept_[np.flatnonzero(hm_)[np.asarray(g.volume_mask, bool)]] = True
+        ki, di = np.flatnonzero(kept_), np.flatnonzero(~kept_)
+        for sel in ([int(ki[0])], ([int(x) for x in di[:: max(1, di.size // 4)][:4]] + [int(ki[-1])]) if di.size else None):
+            if sel is None:
+                continue
+            g1 = RegionGeomToO(cfg)
+            g1.throw(np.asarray(sel, dtype=np.float64) / N)
+            L1 = np.array(g1.pathLens())
+            if L1.size != 1:
+                continue
+            m1 = np.asarray(g1.too_source.sun_moon_cut(g1.val_times()), bool)
+            for method in ("Optical", "Radio"):
+                tr1, c1, p1, d1 = np.array([2.0 * thr]), np.array([1.0 - 1e-6]), np.array([0.5]), np.array([0.25 * L1[0]])
+                try:
+                    mc, geo, npass, _ = g1.mcintegral(tr1, c1, p1, thr, 1.0, 1.0, lenDec=d1, method=method)
+                except Exception as e:
+                    ctx.exception("raises", f"Target mcintegral [{method}] raised with one surviving instant of {len(sel)}", e, wit)
+                    continue
+                um = m1 if (method == "Optical" and cfg.detector.sun_moon.sun_moon_cuts) else None
+                rmc, rgeo, rn, tol, _pc = target_oracle(len(sel), L1, d1, tr1, c1, p1, thr, 1.0, 1.0, um)
+                ctx.count("single-survivor")
+                if not (close(mc, rmc, tol) and close(geo, rgeo, tol) and int(npass) == rn):
+                    ctx.violation("target-estimator", f"Target [{method}] one surviving instant of {len(sel)} sampled: mcintegral returned (integral {mc!r}, geo {geo!r}, passing {npass}); independent evaluation gives ({rmc!r}, {rgeo!r}, {rn})", dict(wit, method=method, sampled=len(sel), survivors=1))
         # radio must ignore the dark-sky mask; optical can only lose events through it
         if cfg.detector.sun_moon.sun_moon_cuts and (~mask).any():
             o = g.mcintegral(trig, cosch, pexit, thr, 1.0, 1.0, lenDec=lenDec, method="Optical")
@@ -404,7 +461,7 @@ def run(ctx):
     payloads += [{"kind": "direct", "what": "diffuse", "ncfg": ctx.pick(6, 30), "nev": ctx.pick(3000, 6000)} for _ in range(nd)]
     payloads += [{"kind": "direct", "what": "target", "ncfg": ctx.pick(2, 6), "nev": ctx.pick(2500, 6000)} for _ in range(nd)]
     core.run_shards(ctx, "nssmon.checks.c03", "shard", payloads, workers=min(16, len(payloads)))
-    for m in ("direct-diffuse", "direct-target", "target-column", "threshold-ladder", "history", "rethrow", "permutation", "fullrun-keywords", "fullrun-column"):
+    for m in ("single-survivor", "direct-diffuse", "direct-target", "target-column", "threshold-ladder", "history", "rethrow", "permutation", "fullrun-keywords", "fullrun-column"):
         ctx.require(m)
     if ctx.obs.get("target_bright_instants_seen", 0) == 0 or ctx.obs.get("target_dark_instants_seen", 0) == 0:
         ctx.inconclusive_because("the dark-sky mask never took both values on the kept instants")
